@@ -145,7 +145,15 @@ func (e *Env) eval(ex Expr) Val {
 	case *ESel:
 		// dotted ghost / qualified names first
 		if dn := dottedName(v); dn != "" {
-			if _, isVar := e.vars[rootIdent(v)]; !isVar {
+			lv, isVar := e.vars[rootIdent(v)]
+			if isVar && e.x.isGhost(dn) {
+				// a Go local that happens to share its name with a ghost prefix (a visitor closure called
+				// `vis`): a value without fields cannot be meant by `vis.n`, the ghost is
+				if _, _, isStructRef := structOf(lv.Ty); !isStructRef && lv.K != VStruct {
+					isVar = false
+				}
+			}
+			if !isVar {
 				if e.x.isGhost(dn) {
 					return term(e.ghostv(dn), e.x.ghostSort(dn), nil)
 				}
